@@ -169,7 +169,7 @@ class Program:
     def __init__(self, rng, tier):
         self.rng = rng
         self.world = gen_world(rng, {"integer_max_volume": True})
-        self.gen = Gen(rng, self.world, {"p_comp": 0.2})
+        self.gen = Gen(rng, self.world, {"p_comp": 0.2, "dist_dups": True})
         r = rng.random()
         self.n = rng.randint(1, 12) if r < 0.8 else rng.randint(13, 60)
         self.p_fault = rng.choice([0.0, 0.1, 0.17, 0.17, 0.3])
